@@ -448,7 +448,7 @@ def check_ln(ctx):
 def shrink(case, what):
     """drop coordinates (vectors) / entries (helpers) while the oracle still fails"""
     cur = case
-    for _ in range(8):
+    for _ in range(6):
         cands = []
         if cur["kind"] == "vectors":
             dim = len(cur["vecs"][0])
@@ -470,7 +470,7 @@ def shrink(case, what):
                     cands.append(cand)
         if not cands:
             break
-        out, _ = C.run_impl("c18", {"cases": cands})
+        out, _ = C.run_impl("c18", {"cases": cands}, {"NUMBA_DISABLE_JIT": "1"})   # no compilation: ~10 s per round
         nxt = None
         for cc, r in zip(cands, (out or {}).get("results", [])):
             if oracle(cc, r):
@@ -529,7 +529,7 @@ def run(ctx, replay=None):
         if bad:
             n_oracle_bad += 1
             small = c
-            if not replay and n_shrunk < 2:
+            if not replay and n_shrunk < 1:
                 small = shrink(c, bad[0])
                 n_shrunk += 1
             ctx.report("property fails on the implementation: " + "; ".join(bad[:4]),
